@@ -69,6 +69,8 @@ def run_variant(args):
         return (v.name, v.kind, "analysis-error", "internal: " + repr(exc), [])
     keys = {f.key for f in ctx.findings}
     newk = sorted(keys - base_keys)
+    if not newk and getattr(ctx, "problems", None):
+        return (v.name, v.kind, "analysis-error", "; ".join(ctx.problems), [])
     if v.kind == "break":
         hit = [k for k in newk if k.startswith(v.rule + " ::")]
         if hit:
@@ -196,6 +198,10 @@ def check(prop, tier, root):
                 print(f"      {dk}: {dv}")
         print(f"VIOLATION property={prop} replay={path}")
         return 1
+    if getattr(ctx, "problems", None):
+        # only listed (known) findings fired: a rule that could not decide is not hidden by them
+        print(f"ANALYSIS-ERROR property={prop}: " + "; ".join(ctx.problems))
+        return 2
     if selftest_fail:
         print(
             f"ANALYSIS-ERROR property={prop}: checker self-test failed "
